@@ -1226,7 +1226,7 @@ func (x *Exec) valueTerm(st *State, e ast.Expr, env *Env) Term {
 		fname := x.canonEnv(v.Fun, env)
 		if se, ok := ast.Unparen(v.Fun).(*ast.SelectorExpr); ok && x.P.Info.Selections[se] != nil {
 			// method call: name the receiver by its current value
-			fname = x.ValueName(st, se.X, env) + "." + se.Sel.Name
+			fname = x.ValueName(st, se.X, env) + "." + x.selName(se)
 		}
 		return Sym(fname + "(" + strings.Join(args, ",") + ")" + x.Tok(v.Pos()))
 	case *ast.BinaryExpr:
@@ -1453,6 +1453,17 @@ func (x *Exec) call(st *State, call *ast.CallExpr, env *Env) []*State {
 		}
 	}
 	return []*State{x.GenericCallKill(st, call, env)}
+}
+
+// selName is the selected method's name - the one it had on the reviewed tree
+// if it has been renamed since (core.FuncAlias).
+func (x *Exec) selName(se *ast.SelectorExpr) string {
+	if f, ok := x.P.Info.Uses[se.Sel].(*types.Func); ok {
+		if a, ok := core.FuncAlias[f]; ok {
+			return a
+		}
+	}
+	return se.Sel.Name
 }
 
 // isRoleName: a short lower-case identifier used as a role name by the rule specs.
@@ -1850,7 +1861,7 @@ func (x *Exec) evalBoolCall(st *State, call *ast.CallExpr, env *Env) []OutB {
 	}
 	fname := x.canonEnv(call.Fun, env)
 	if se, ok := ast.Unparen(call.Fun).(*ast.SelectorExpr); ok && x.P.Info.Selections[se] != nil {
-		fname = x.ValueName(st, se.X, env) + "." + se.Sel.Name
+		fname = x.ValueName(st, se.X, env) + "." + x.selName(se)
 	}
 	return x.OpaqueAtom(st, fname+"("+strings.Join(args, ",")+")"+x.Tok(call.Pos()))
 }
